@@ -500,6 +500,18 @@ func C18(p *engine.Prog, r *engine.Report) {
 	c18R2b(p, r, cts)
 	c18R3(p, r, cts)
 	c18R4(p, r)
+	// ---------------- R5: equal values encode to equal bytes — no iteration in unspecified order (maps,
+	// sets) has order-relevant effects inside an encoder or a signing digest (analysis A over the codecs)
+	{
+		var ents []*ssa.Function
+		for _, ct := range cts {
+			ents = append(ents, ct.enc...)
+			if ct.sig != nil {
+				ents = append(ents, ct.sig)
+			}
+		}
+		runDeterminism(p, r, "C18-R5", ents, 0)
+	}
 }
 
 func encNames(fs []*ssa.Function) string {
